@@ -42,14 +42,11 @@ func NewEval(opts CompilerOptions, globals Object, args ...Object) *Eval {
 // Run compiles, runs given script and returns last value on stack.
 func (r *Eval) Run(ctx context.Context, script []byte) (Object, *Bytecode, error) {
 	// constants of a script that fails to compile are dropped, the modules it
-	// added to the store and the symbols it defined (globals refer to their
-	// name by constant index) must be dropped with them.
+	// added to the store must be dropped with them.
 	savedStore := r.moduleStore.clone()
-	savedSymbols := r.Opts.SymbolTable.clone()
 	bytecode, err := compileScript(script, &r.Opts, &r.moduleStore)
 	if err != nil {
 		r.moduleStore = savedStore
-		*r.Opts.SymbolTable = *savedSymbols
 		return nil, nil, err
 	}
 
